@@ -1,5 +1,120 @@
-From Hop Require Import Base Recv Mux.
+(* C09 — tubes are isolated from each other; identifiers; accept-once; whole unreliable messages.
+   Theorems about Model/Mux.v (tubes/muxer.go, the receive entry points of reliable.go / unreliable.go).
+   Proofs in Proofs/MuxProofs.v. *)
+From Hop Require Import Base Recv Mux MuxProofs.
 Open Scope N_scope.
-Theorem c09_placeholder : m_parity (mux_new true) = 0.
-Proof. reflexivity. Qed.
-Print Assumptions c09_placeholder.
+
+(* ---- at most one live tube per (reliability, id), in every reachable state: for every history of creates,
+   incoming frames (any bytes), accepts, closes, reaps and reads on a client or server muxer. *)
+Theorem c09_live_ids_unique : forall (server : bool) (ops : list mop),
+  let m := fst (mrun (mux_new server) ops) in
+  NoDup (map t_id (m_reliable m)) /\ NoDup (map t_id (m_unreliable m)).
+Proof. intros. pose proof (mrun_inv ops (mux_new server) (minv_new server)) as [A B _]. split; assumption. Qed.
+Print Assumptions c09_live_ids_unique.
+
+(* ---- identifiers handed out by Create*Tube (pickTubeID under the muxer lock): in every reachable state the
+   returned id has the muxer's parity, is below 256, is not used by any live tube of that reliability, is the
+   smallest such id, and the new tube is the only change to the maps; nothing is queued for Accept.
+   Create fails only when all 128 ids of the parity are live (or the muxer is stopping). *)
+Theorem c09_ids_distinct_parity : forall (server : bool) (ops : list mop) (rel : bool) (ty : N),
+  let m := fst (mrun (mux_new server) ops) in
+  match create_tube m rel ty with
+  | Ok (m', id) =>
+      id mod 2 = m_parity m /\ id < 256 /\ get_tube m rel id = None /\
+      (forall x, x < id -> x mod 2 = m_parity m -> get_tube m rel x <> None) /\
+      get_tube m' rel id = Some (new_tube rel id ty (m_epoch m)) /\
+      (forall rel' id', (rel' <> rel \/ id' <> id) -> get_tube m' rel' id' = get_tube m rel' id') /\
+      m_queue m' = m_queue m
+  | _ => m_running m = true -> forall x, x < 256 -> x mod 2 = m_parity m -> get_tube m rel x <> None
+  end.
+Proof.
+  intros. pose proof (mrun_inv ops (mux_new server) (minv_new server)) as I. fold m in I.
+  destruct (create_tube m rel ty) as [[m' id]| |] eqn:C.
+  - destruct (create_tube_spec _ _ _ _ _ I C) as (A & B & D & E & F & G & H & _). repeat split; assumption.
+  - intros. eapply create_tube_err; eauto.
+  - intros. exfalso. unfold create_tube in C. destruct (pick_tube_id m rel); [destruct (make_tube _ _ _ _ _) as [[? ?]|]|]; discriminate.
+Qed.
+Print Assumptions c09_ids_distinct_parity.
+
+(* ---- demultiplexing: for every muxer state and every decoded frame,
+   (1) no tube other than the one with the frame's (reliability, id) changes in any way;
+   (2) if that tube is live it handles the frame (initiate handling for REQ/RESP, receive otherwise) and nothing
+       is queued for Accept — in particular a repeated REQ for a live tube queues nothing;
+   (3) if it is unknown: a REQ on a running muxer creates exactly one tube with the opener's reliability, id and
+       type and queues exactly that tube once; any other frame leaves the muxer unchanged. *)
+Theorem c09_demux_by_rel_id_accept_once : forall (m : mux) (f : mframe),
+  (forall rel id, (rel <> mf_rel f \/ id <> mf_id f) -> get_tube (demux m f) rel id = get_tube m rel id) /\
+  (forall t, get_tube m (mf_rel f) (mf_id f) = Some t ->
+     get_tube (demux m f) (mf_rel f) (mf_id f) = Some (handled t f) /\ m_queue (demux m f) = m_queue m) /\
+  (get_tube m (mf_rel f) (mf_id f) = None ->
+     if mf_req f && m_running m then
+       let t := new_tube (mf_rel f) (mf_id f) (mf_type f) (m_epoch m) in
+       get_tube (demux m f) (mf_rel f) (mf_id f) = Some (handled t f) /\ m_queue (demux m f) = m_queue m ++ [t]
+     else demux m f = m).
+Proof. intros. destruct (demux_spec m f) as (A & B & C & _). auto. Qed.
+Print Assumptions c09_demux_by_rel_id_accept_once.
+
+(* ---- unreliable tubes: for any list of arriving frames each of which is the frame of some written message
+   (in any order, with any duplication and omission), what is queued for the reader is a sequence of whole
+   written messages — never a fragment, a merge or altered bytes.  (WriteMsgUDP refuses messages above
+   MaxFrameDataLength; the tube's own FIN carries an empty payload and is outside the premise: scope decision 3
+   of DESIGN.md.) *)
+Theorem c09_unreliable_whole_messages : forall (written : list bytes) (frames : list mframe) (t : tube),
+  t_rel t = false ->
+  Forall (fun f => exists no msg, In msg written /\ unrel_frame (t_id t) no msg = Some f) frames ->
+  exists delivered, t_msgs (fold_left tube_receive frames t) = t_msgs t ++ delivered /\
+                    Forall (fun x => In x written) delivered.
+Proof. exact unreliable_whole_messages. Qed.
+Print Assumptions c09_unreliable_whole_messages.
+
+Example c09_unreliable_example :
+  let t := tube_receive_initiate (new_tube false 3 1 0) in
+  let fr := fun no msg => {| mf_id := 3; mf_req := false; mf_resp := false; mf_rel := false; mf_ack := false;
+                             mf_fin := false; mf_rtr := false; mf_ackno := 0; mf_no := no; mf_data := msg |} in
+  unrel_frame 3 2 [5;6] = Some (fr 2 [5;6]) /\
+  t_msgs (fold_left tube_receive [fr 2 [5;6]; fr 1 [4]; fr 2 [5;6]] t) = [[5;6]; [4]; [5;6]].
+Proof. vm_compute. auto. Qed.
+
+(* ---- isolation from EARLIER tubes with the same id does not hold (design-level: frames carry no instance
+   epoch and every tube starts at frame number 1).  Witness: the peer opens reliable tube 1 (instance 0); the
+   tube is closed and reaped; the peer opens tube 1 again (instance 1); a data frame that was sent to instance
+   0 and delayed arrives now: it is handled by instance 1 and its bytes are handed to instance 1's reader. *)
+Definition req1 (ty : N) : mframe :=
+  {| mf_id := 1; mf_req := true; mf_resp := false; mf_rel := true; mf_ack := true; mf_fin := false; mf_rtr := false;
+     mf_ackno := ty * 16777216; mf_no := 0; mf_data := [] |}.
+Definition old_data : mframe :=
+  {| mf_id := 1; mf_req := false; mf_resp := false; mf_rel := true; mf_ack := false; mf_fin := false; mf_rtr := false;
+     mf_ackno := 0; mf_no := 1; mf_data := [79; 76; 68] |}.
+Theorem c09_epoch_isolation_refuted :
+  exists (before between : list mop) (f : mframe),
+    let m0 := fst (mrun (mux_new true) before) in
+    let m1 := fst (mrun m0 between) in
+    handler_epoch m0 f = Some 0 /\           (* when f was sent, (rel,id) was instance 0 *)
+    handler_epoch m1 f = Some 1 /\           (* when it arrives, instance 1 handles it *)
+    snd (read_tube (demux m1 f) (mf_rel f) (mf_id f)) = mf_data f /\ mf_data f <> [].
+Proof.
+  exists [MFrame (req1 7); MAccept], [MClose true 1; MReap true 1; MFrame (req1 9); MAccept], old_data.
+  vm_compute. repeat split; try reflexivity. discriminate.
+Qed.
+Print Assumptions c09_epoch_isolation_refuted.
+
+(* same root cause: a delayed copy of a REQ that was already served (tube accepted, closed, reaped) creates a
+   ghost tube and offers it to Accept a second time *)
+Theorem c09_accept_once_across_reuse_refuted :
+  exists (ops : list mop) (f : mframe),
+    let m := fst (mrun (mux_new true) ops) in
+    In (MFrame f) ops /\ m_queue m = [] /\ List.length (m_queue (demux m f)) = 1%nat.
+Proof.
+  exists [MFrame (req1 7); MAccept; MClose true 1; MReap true 1], (req1 7).
+  vm_compute. repeat split; auto.
+Qed.
+Print Assumptions c09_accept_once_across_reuse_refuted.
+
+(* ---- what does hold (partial): among LIVE tubes there is no cross-delivery — in every reachable state a frame
+   changes at most the single live tube with its (reliability, id), whose instance is unambiguous because live
+   ids are unique (c09_live_ids_unique); instances differ only across a close + reap of the same id. *)
+Theorem c09_no_cross_tube_live_partial : forall (server : bool) (ops : list mop) (f : mframe) (rel : bool) (id : N),
+  let m := fst (mrun (mux_new server) ops) in
+  (rel <> mf_rel f \/ id <> mf_id f) -> get_tube (demux m f) rel id = get_tube m rel id.
+Proof. intros. apply demux_spec. assumption. Qed.
+Print Assumptions c09_no_cross_tube_live_partial.
